@@ -179,6 +179,10 @@ def dotted(node):
     return None
 
 
+# modules whose small helper classes are read as the locals and closures they group (sa/objflat.py)
+FLATTEN_CLASSES = {'depccg/parsing.py', 'depccg/allennlp/utils.py'}
+
+
 class PyModule(object):
     def __init__(self, rel, text, tree):
         self.rel = rel
@@ -385,8 +389,11 @@ class Repo(object):
             from . import objflat
             # generic functions read as isinstance chains; helper classes are left as written here (the rules for the
             # Python modules know the classes of the reference tree by role) -- the Cython front end flattens them
-            objflat._link(tree)
-            flattened = objflat.merge_dispatch(tree)
+            if rel in FLATTEN_CLASSES:
+                flattened = objflat.flatten(tree)
+            else:
+                objflat._link(tree)
+                flattened = objflat.merge_dispatch(tree)
             self._mods[rel] = PyModule(rel, text, tree)
             self._mods[rel].flattened = flattened
             self._mods[rel].repo = self
